@@ -3,13 +3,15 @@
 Extracted statement by statement (closed set of shapes):
   redun/executors/scratch.py   SCRATCH_* constants, get_job_scratch_file, get_array_scratch_file,
                                write_array_job_scratch_files
-  redun/job_array.py           *_ARRAY_VAR constants, get_job_array_index (lookup order)
+  redun/job_array.py           *_ARRAY_VAR constants, get_job_array_index (lookup order),
+                               JobDescription (__init__ key fields, __hash__, __eq__)
   redun/executors/aws_batch.py ARRAY_JOB_SUFFIX, is_array_job_name, get_batch_job_name,
                                get_hash_from_job_name (suffix strip + the regex literal)
 Hand-modelled in coq/Model/Scratch.v and pinned by shape (tied by the correspondence run):
   scratch.parse_job_result, scratch.parse_job_error, command.get_oneshot_command,
   cli.RedunClient.oneshot_command, aws_batch.AWSBatchExecutor.gather_inflight_jobs / _submit /
-  _submit_array_job / _process_job_status
+  _submit_array_job / _process_job_status / _submit_jobs, aws_batch.submit_task,
+  job_array.JobArrayer.add_job / submit_pending_jobs
 """
 from __future__ import annotations
 
@@ -17,7 +19,7 @@ import ast
 import re
 import sys
 
-from .astutil import TranslateError, body_nodoc, fail, find_assign, find_func, load, pin, src
+from .astutil import TranslateError, body_nodoc, fail, find_assign, find_class, find_func, load, pin, src
 
 PINNED = [
     ("redun/executors/scratch.py", None, "parse_job_result"),
@@ -28,6 +30,10 @@ PINNED = [
     ("redun/executors/aws_batch.py", "AWSBatchExecutor", "_submit"),
     ("redun/executors/aws_batch.py", "AWSBatchExecutor", "_submit_array_job"),
     ("redun/executors/aws_batch.py", "AWSBatchExecutor", "_process_job_status"),
+    ("redun/executors/aws_batch.py", "AWSBatchExecutor", "_submit_jobs"),
+    ("redun/executors/aws_batch.py", None, "submit_task"),
+    ("redun/job_array.py", "JobArrayer", "add_job"),
+    ("redun/job_array.py", "JobArrayer", "submit_pending_jobs"),
 ]
 
 # get_hash_from_job_name: the only regex the hand model of `re_hash_go` stands for
@@ -164,6 +170,26 @@ def translate(pins: dict | None = None):
     if not env_vars:
         fail("get_job_array_index: no environment variables recognised", fn)
 
+    # JobDescription: the arrayer's grouping key
+    jd = find_class(ja, "JobDescription")
+    init = find_func(ja, "__init__", "JobDescription")
+    if [a.arg for a in init.args.args] != ["self", "job"]:
+        fail("JobDescription.__init__: signature changed", init)
+    got = [src(x) for x in body_nodoc(init)]
+    key_fields = {"self.task_name = job.task.fullname": "KFullname", "self.task_name = job.task.name": "KName"}
+    if len(got) != 3 or got[0] not in key_fields or got[1:] != [
+            "self.options = job.get_options()",
+            "self.key = self.task_name + ' ' + str(sorted(self.options.items()))"]:
+        fail(f"JobDescription.__init__: unrecognised body {got!r}", init)
+    key_task = key_fields[got[0]]
+    if [src(x) for x in body_nodoc(find_func(ja, "__hash__", "JobDescription"))] != ["return hash(self.key)"]:
+        fail("JobDescription.__hash__: must hash the key")
+    if [src(x) for x in body_nodoc(find_func(ja, "__eq__", "JobDescription"))] != [
+            "return isinstance(other, JobDescription) and self.key == other.key"]:
+        fail("JobDescription.__eq__: must compare the key")
+    if jd.bases or jd.keywords:
+        fail("JobDescription: unexpected base classes", jd)
+
     # ------------------------------------------------------------------ aws_batch.py
     ab = load("redun/executors/aws_batch.py")
     suffix = str_const(ab, "ARRAY_JOB_SUFFIX", "aws_batch.py")
@@ -217,12 +243,13 @@ def translate(pins: dict | None = None):
     for k in ("f_input", "f_output", "f_error", "f_hashes", "d_jobs", "d_array", "arr_out_elem", "arr_err_elem",
               "arr_suffix"):
         v.append(f"  {k} := {cs(cfg[k])};  (* {cfg[k]!r} *)")
-    v.append("  env_vars := [" + "; ".join(cs(x) for x in env_vars) + "]")
+    v.append("  env_vars := [" + "; ".join(cs(x) for x in env_vars) + "];")
+    v.append(f"  key_task := {key_task}  (* JobDescription.task_name *)")
     v.append("|}.")
     v.append("(* The theorems of Props/C32.v are about [shipped]; this is the tie. *)")
     v.append("Lemma C32_tie : gen = shipped.")
     v.append("Proof. vm_compute. reflexivity. Qed.")
-    return "\n".join(v) + "\n", got_pins, dict(cfg, env_vars=env_vars)
+    return "\n".join(v) + "\n", got_pins, dict(cfg, env_vars=env_vars, key_task=key_task)
 
 
 if __name__ == "__main__":
